@@ -573,9 +573,27 @@ fn c11(r: &Run, rec: &StepRec) {
                 prove_d("C11/deposit-leaves-the-checkpoint", si(&p1.last_updated_premium_fraction).eq(si(&p0.last_updated_premium_fraction)), what.clone());
             }
         }
-        Op::Liquidate { .. } => {
+        Op::Liquidate { by, .. } => {
             if let (Some(p0), Some(p1)) = (p0, p1) {
                 prove_d("C11/partial-liquidation-leaves-the-checkpoint", si(&p1.last_updated_premium_fraction).eq(si(&p0.last_updated_premium_fraction)), what.clone());
+            }
+            // a FULL liquidation settles the position's funding once, with its sign: what is left
+            // of margin + PnL (quote actually exchanged) - funding owed after the liquidator's share
+            // goes to the insurance fund (net of recorded bad debt)
+            if let (Some(p0), None) = (p0, p1) {
+                let q = s(rec.pre.vamm[r.vi].quote_asset_reserve).sub(s(rec.post.vamm[r.vi].quote_asset_reserve)).abs();
+                let pnl = if spec::is_long(p0) { q.sub(s(p0.notional)) } else { s(p0.notional).sub(q) };
+                let f = match r.charged_at.get(&(r.vi, who)) {
+                    Some(at) => si(&r.cum_ledger[r.vi]).sub(si(at)).mul(si(&p0.size)).div_t(c(d)),
+                    None => spec::funding_owed(p0, &rec.pre.cum[r.vi], d),
+                };
+                let eq = spec::equity(p0, pnl, f);
+                let liq_gain = delta(rec, by);
+                let ins_net = delta(rec, "insurance_fund").add(s(rec.post.eng.bad_debt).sub(s(rec.pre.eng.bad_debt)));
+                let remaining = eq.sub(liq_gain);
+                if by != &who {
+                    prove_d("C11/full-liquidation-charges-exactly-the-funding-owed", remaining.ge(c(0)).implies(ins_net.eq(remaining)), what.clone());
+                }
             }
         }
         Op::PayFunding { .. } => {}
